@@ -303,6 +303,7 @@ class _C01(CalSpec):
     pid = "C01"
     lean_module = "Starcal.Props.C01"
     src_ties = ["Starcal.SrcTie.Cal"]
+    src_overflow = ["Starcal.SrcTie.NoOverflow"]
     kinds = ("jd", "ym")
     expected = "ToJd(JdTo(jd)) = jd for every day number, JdTo(ToJd(d)) = d for every well-formed date, all 9 configurations"
     rule = CAL_RULE
@@ -315,6 +316,7 @@ class _C02(CalSpec):
     pid = "C02"
     lean_module = "Starcal.Props.C02"
     src_ties = ["Starcal.SrcTie.Cal"]
+    src_overflow = ["Starcal.SrcTie.NoOverflow"]
     kinds = ("jd",)
     expected = "JdTo(jd+1) is the calendar successor of JdTo(jd) under the library's GetMonthLen; every produced date is well-formed"
     rule = CAL_RULE
